@@ -142,6 +142,13 @@ def falsified(text, flags, rec=None):
                 for e in n.elements:
                     if e.literal.sign == Sign.DoubleNegation and "_" in variables(e.literal):
                         keys.add("Hyp_no_anon_dneg_oldagg")
+        if stm.ast_type == ASTType.Rule and "unused" in on:
+            h0 = stm.head
+            if h0.ast_type == ASTType.Literal and h0.atom.ast_type == ASTType.SymbolicAtom and len(stm.body) == 1 and \
+                    h0.atom.symbol.ast_type == ASTType.Function:
+                hv = [a.name for a in h0.atom.symbol.arguments if a.ast_type == ASTType.Variable]
+                if len(hv) != len(set(hv)):
+                    keys.add("Hyp_copy_distinct_head_vars")
         if stm.ast_type == ASTType.Rule:
             h = stm.head
             # D17: a bounded head aggregate whose element tuple does not determine the element atom
